@@ -283,6 +283,7 @@ func (c13) Exec(r *kit.Run) {
 			kit.Bug("c13 fixed: %v", err)
 		}
 		sc.Instant, sc.K = "poll", f.K
+		sc.Single = false // (a variant of the already-cancelled instant only)
 	}
 	c13Build(&sc)
 	r.Out.Scenario = sc
